@@ -783,7 +783,7 @@ func (e *Env) index(x *EIndex) Val {
 	switch u := v.GT.Underlying().(type) {
 	case *types.Slice:
 		i = e.concretize(i, tInt)
-		idx := g.iadd(app("s_off", v.S), g.toIdx(i))
+		idx := app("sl.idx", v.S, g.toIdx(i))
 		arr := app("s_arr", v.S)
 		if isLeafElem(u.Elem()) {
 			key := "E|" + typeKey(u.Elem())
